@@ -57,7 +57,7 @@ fn init_scheduler() {
         let timer_event_handler = |c: Arc<AtomicOption<CoroutineImpl>>| {
             // just re-push the co to the visit list
             #[cfg(may_verif)]
-            crate::verif::label("timer.handler.take", 0);
+            crate::verif::label("timer.handler.take", Arc::as_ptr(&c) as usize);
             if let Some(mut co) = c.take() {
                 // set the timeout result for the coroutine
                 set_co_para(&mut co, io::Error::new(io::ErrorKind::TimedOut, "timeout"));
